@@ -9,7 +9,8 @@ fragmentation and timeouts, `__remainder` left from the banner, direct read_all 
 wire bytes, decoded (cmd, payload, seqno) and error kinds must agree line by line.
 Oracle (model-independent): the real primitives for every cipher x MAC x compression, configured through the real
 Transport._activate_outbound/_activate_inbound, a sender and a receiver Packetizer over an in-memory socket with
-random read fragmentation and mid-stream key switches: decoded == sent, nothing left over.
+random read fragmentation and mid-stream key switches: decoded == sent, nothing left over.  Long in-flight runs
+(70-600 messages) behind the RECEIVER's own rekey request with the shipped overflow allowance must be delivered.
 """
 from pv import lib_packet as L
 from pv.core import hx, exc_site
@@ -67,6 +68,12 @@ class RealPair:
             elif op == "cfgin":
                 c = self.cfgs[w[1]]
                 L.toy_set_inbound(self.pr, c["kind"], c["block"], c["maclen"], c["k"], c["pos"], c["mkey"], c["iv"])
+                L.complete_rekey(self.pr)
+            elif op == "limits":
+                (self.pr.REKEY_PACKETS, self.pr.REKEY_BYTES, self.pr.REKEY_PACKETS_OVERFLOW_MAX,
+                 self.pr.REKEY_BYTES_OVERFLOW_MAX) = (int(x) for x in w[1:5])
+            elif op == "need":
+                self.pr._Packetizer__need_rekey = w[1] == "1"
             elif op == "zout":
                 self.ps.set_outbound_compressor(None if w[1] == "-" else L.ToyComp(int(w[1])))
             elif op == "zin":
@@ -105,7 +112,7 @@ class RealPair:
                 except NeedRekeyException:
                     return "rekey"
                 finally:
-                    self.pr._Packetizer__need_rekey = False
+                    self.in_sock.restore_flag()
             else:
                 raise AssertionError(op)
             return "ok"
@@ -157,6 +164,18 @@ def gen_session(rng, pair, thorough):
     if rng.random() < 0.4:
         z = rng.randrange(0, 500)
         reqs += ["zout %d" % z, "zin %d" % (z if rng.random() < 0.95 else z + 1)]
+    if rng.random() < 0.45:  # the receiver's rekey accounting with small thresholds / allowances, or the shipped ones
+        sh = pair.Packetizer
+        reqs.append("limits %d %d %d %d" % (
+            rng.choice([2, 3, 5, sh.REKEY_PACKETS]), rng.choice([60, 200, 1000, sh.REKEY_BYTES]),
+            rng.choice([2, 3, 6, 12, sh.REKEY_PACKETS_OVERFLOW_MAX, sh.REKEY_PACKETS_OVERFLOW_MAX]),
+            rng.choice([100, 400, 3000, sh.REKEY_BYTES_OVERFLOW_MAX, sh.REKEY_BYTES_OVERFLOW_MAX])))
+        if rng.random() < 0.15:
+            reqs.append("need 1")
+    else:
+        sh = pair.Packetizer
+        reqs.append("limits %d %d %d %d" % (sh.REKEY_PACKETS, sh.REKEY_BYTES, sh.REKEY_PACKETS_OVERFLOW_MAX,
+                                            sh.REKEY_BYTES_OVERFLOW_MAX))
     use_rem = rng.random() < 0.2
     pending = 0
     nmsgs = rng.randrange(1, 40 if thorough else 14)
@@ -369,6 +388,58 @@ def big_session(ctx, Packetizer, Message, c, m, comp, salt):
     return None
 
 
+def inflight_session(ctx, Packetizer, Message, c, m, comp, salt, nflight):
+    """the RECEIVER hits its own rekey threshold (REKEY_PACKETS / REKEY_BYTES scaled down on this one object) while the
+    sender already has `nflight` valid messages on the wire; the overflow allowance is the SHIPPED class constant.
+    Everything in flight must be delivered; then both ends switch keys and traffic goes on."""
+    rng = ctx.rng
+    out_sock, in_sock = L.SinkSock(rng), L.FragSock()
+    ps, pr = Packetizer(out_sock), Packetizer(in_sock)
+    in_sock.pk = pr
+    ps._initial_kex_done = pr._initial_kex_done = True
+    trigger = rng.choice(["packets", "bytes"])
+    if trigger == "packets":
+        pr.REKEY_PACKETS = rng.randrange(1, 8)
+    else:
+        pr.REKEY_BYTES = rng.randrange(50, 400)
+    case = {"suites": [[c, m]], "compression": comp, "receiver_threshold": trigger, "in_flight": nflight,
+            "REKEY_PACKETS_OVERFLOW_MAX": Packetizer.REKEY_PACKETS_OVERFLOW_MAX,
+            "REKEY_BYTES_OVERFLOW_MAX": Packetizer.REKEY_BYTES_OVERFLOW_MAX, "lens": []}
+    try:
+        L.wire_up(ps, pr, c, m, comp, salt=salt)
+        L.complete_rekey(pr)
+    except Exception as e:
+        return ("activate:" + exc_site(e), case, repr(e))
+    seq = 0
+    for epoch in range(2):
+        pending = []
+        for i in range(nflight):
+            payload = rng.randbytes(rng.choice([1, 5, 20, rng.randrange(1, 64)]))
+            try:
+                ps.send_message(Message(payload))
+            except Exception as e:
+                return ("send:" + exc_site(e), case, repr(e))
+            pending.append((payload, seq))
+            seq = (seq + 1) % (1 << 32)
+        case["lens"] = [len(x[0]) for x in pending]
+        err = drain(ctx, pr, in_sock, out_sock, pending, case)  # all of it was in flight before the first read
+        if err:
+            return (err[0] + ":behind-receivers-rekey-request", dict(err[1], delivered_before_failure=True), err[2])
+        if not pr.need_rekey():
+            ctx.dist("oracle:inflight:request-not-triggered")
+        else:
+            ctx.dist("oracle:inflight:messages-behind-request", nflight)
+        # the key switch the request asked for (both directions of the receiving Packetizer)
+        try:
+            L.wire_up(ps, pr, c, m, comp, salt=salt + 1 + epoch)
+            L.complete_rekey(pr)
+        except Exception as e:
+            return ("activate:" + exc_site(e), case, repr(e))
+        if pr.need_rekey():
+            return ("rekey-request-not-cleared-by-key-switch", case, "need_rekey() still true after both directions switched")
+    return None
+
+
 def drain(ctx, pr, in_sock, out_sock, pending, case):
     rng = ctx.rng
     if case.get("banner"):
@@ -475,6 +546,14 @@ def run(ctx):
             ctx.dist("oracle:big-payloads:" + comp)
             if err:
                 ctx.fail(err[0], err[1], err[2])
+    # long in-flight runs behind the receiver's own rekey request, shipped overflow allowance
+    for bi, (c, m) in enumerate(big_suites + ([suites[7], suites[31], suites[50]] if ctx.thorough else [])):
+        for nflight in ((70, 200, 600) if bi == 0 or ctx.thorough else (ctx.rng.choice([70, 130, 300]),)):
+            comp = comps[(bi + nflight) % len(comps)]
+            err = inflight_session(ctx, Packetizer, Message, c, m, comp, 6000 + bi, nflight)
+            ctx.case(("real-inflight", c, m, comp, nflight), err is None)
+            if err:
+                ctx.fail(err[0], err[1], err[2])
     for j, (ss, comp, nm, maxlen, sw) in enumerate(jobs):
         if ctx.thorough and nm * maxlen > 2_000_000:
             nm = max(1, 2_000_000 // maxlen)
@@ -514,8 +593,11 @@ META = {
     "note": ("Trusted: Lean kernel + 3 standard axioms; correspondence harness; the laws assumed of cryptography/zlib "
              "(CipherLaws, AeadLaws, MacOk, CompLaws - listed in the evidence). Hypothesis of the theorems: the sender's "
              "calls succeeded (payload non-empty and < 2^32-ish, no sequence roll-over before the first kex, 64-bit GCM "
-             "invocation counter not exhausted). Not in this model: the rekey counters that SET need_rekey (C10; here the flag is "
-             "an arbitrary input at every timeout), keepalive, handshake timer; configurations with etm and aead both set. The theorems take an empty __remainder; the remainder path "
+             "invocation counter not exhausted). The receiver's rekey accounting (counters, own request, overflow allowance) is modelled "
+             "as a layer on read_message; roundtrip_with_rekey_accounting has the explicit hypothesis 'every key epoch of the "
+             "sender's traffic stays below the allowance' (RunOk) and the shipped constants are regenerated from the source "
+             "(shipped_limits_eq_generated). The flag seen at a timeout stays an arbitrary input. Not in this model: the SENDER-side "
+             "threshold of the same Packetizer (C10), keepalive, handshake timer; configurations with etm and aead both set. The theorems take an empty __remainder; the remainder path "
              "of read_all (incl. its negative-size slice quirk) is modelled and covered by the correspondence only."),
     "technique": "Lean 4 proof (induction over histories with a paired-state invariant; free-monad reader for read_all) + toy-primitive differential correspondence + real-primitive oracle",
 }
